@@ -24,6 +24,8 @@ def dispatch (cmd : String) (args : List Sexp) : Option String :=
   | "pycore.scopestable" => Driver.PyCore.scopeStableCmd args
   | "pycore.exctable" => Driver.PyCore.excTableCmd args
   | "rename.applyast" => Driver.PyCore.renameApply args
+  | "min.applyast" => Driver.PyCore.minApply args
+  | "min.full" => Driver.PyCore.minFull args
   | "hoist.place" => Driver.Rename.hoistPlace args
   | "rename.assign" => Driver.Rename.assignCmd args
   | "ministring" => Driver.Strings.ministring args
